@@ -261,10 +261,12 @@ def trace (s : State) : List Op → List (Res × State)
 
 /-! ### observation: the same token the harness prints after each operation -/
 
+/-- reasons are compared by class: L local reset, R remote reset, K connection lost (which of ConnectionTermination /
+ConnectionFailed / UpstreamReset is seen depends on how MOSN notices the loss — read or failed write — not on the pool) -/
 def reasonLetter (r : String) : String :=
   if r = reasonStreamLocalReset then "L" else if r = reasonStreamRemoteReset then "R"
-  else if r = reasonStreamConnectionTermination then "T" else if r = reasonStreamConnectionFailed then "F"
-  else if r = reasonUpstreamReset then "U" else "?"
+  else if r = reasonStreamConnectionTermination then "K" else if r = reasonStreamConnectionFailed then "K"
+  else if r = reasonUpstreamReset then "K" else "?"
 
 def Res.render : Res → String
   | .none => "-" | .ok c => s!"ok{c}" | .overflow => "ovf" | .connFail => "cf"
